@@ -59,8 +59,17 @@ mod ponly {
         ($g:ident: [ $( ($T:ty, $B:ident, $w:expr, $f:expr, $s:ident) ),* ]) => {
             pub mod $g {
                 use super::*;
+                define_ops!();
+                /// float conversions and comparisons only
+                pub fn genf<F: Lay>(kind: usize, prim: usize, a: u128, b: u128) -> Out {
+                    match prim {
+                        13 => conv::<F, f32>(kind, a, b),
+                        14 => conv::<F, f64>(kind, a, b),
+                        _ => unreachable!("probe-only layout"),
+                    }
+                }
                 pub fn register(v: &mut Vec<Entry>) {
-                    $( v.push(Entry { l: <$T as Lay>::LAYOUT, gen: no_gen, probe: crate::probes_only!($T), probe_only: true }); )*
+                    $( v.push(Entry { l: <$T as Lay>::LAYOUT, gen: genf::<$T>, probe: crate::probes_only!($T), probe_only: true }); )*
                 }
             }
         };
@@ -396,6 +405,8 @@ fn related_partners(l: Layout, a: u128, prim: usize) -> Vec<u128> {
 }
 
 struct PrimDom {
+    /// the explicit special floats (f32, f64): comparison partners of the probe-only layouts
+    special: [Vec<u128>; 2],
     /// per prim: values used for conversions and for comparisons
     conv: Vec<Vec<u128>>,
     cmp: Vec<Vec<u128>>,
@@ -442,7 +453,7 @@ fn prim_domain(tier: Tier) -> PrimDom {
     cmp.push(thin(&f64a, &special64, s64));
     conv.push(f32a);
     conv.push(f64a);
-    PrimDom { conv, cmp }
+    PrimDom { conv, cmp, special: [special32, special64] }
 }
 
 fn selects(prop: Prop, kind: usize, prim: usize) -> bool {
@@ -475,7 +486,8 @@ fn run_layout(e: &Entry, pd: &PrimDom, prop: Prop, tier: Tier) -> JobOut {
     let mut returned = vec![];
     let c11 = prop == Prop::C11;
     let ponly = e.probe_only;
-    let selects = |prop: Prop, kind: usize, prim: usize| selects(prop, kind, prim) && (!ponly || (12..16).contains(&kind));
+    // probe-only layouts: impl probes against every primitive, and the float conversions and comparisons on thin sets
+    let selects = |prop: Prop, kind: usize, prim: usize| selects(prop, kind, prim) && (!ponly || (12..16).contains(&kind) || (prim >= 13 && kind < 12));
     let mut visit = |rep: &mut Report, kind: usize, prim: usize, a: u128, b: u128| {
         let opi = kind * 16 + prim;
         // skip unspecified plain-form cases outside C11 without executing them
@@ -527,7 +539,7 @@ fn run_layout(e: &Entry, pd: &PrimDom, prop: Prop, tier: Tier) -> JobOut {
         // prim -> fixed
         let any_from = (0..5).chain(12..14).any(|k| selects(prop, k, prim));
         if any_from {
-            for &b in &pd.conv[prim] {
+            for &b in if ponly && prim >= 13 { &pd.cmp[prim] } else { &pd.conv[prim] } {
                 rep.states += 1;
                 if b != 0 {
                     rep.nontrivial_states += 1;
@@ -558,7 +570,7 @@ fn run_layout(e: &Entry, pd: &PrimDom, prop: Prop, tier: Tier) -> JobOut {
         if selects(prop, 10, prim) && prim != 12 {
             for &a in &fd.fixed_cmp {
                 let rel = if l.w > 8 { related_partners(l, a, prim) } else { vec![] };
-                for &b in pd.cmp[prim].iter().chain(rel.iter()) {
+                for &b in (if ponly { &pd.special[prim - 13] } else { &pd.cmp[prim] }).iter().chain(rel.iter()) {
                     rep.states += 1;
                     if a != 0 || b != 0 {
                         rep.nontrivial_states += 1;
@@ -661,7 +673,7 @@ fn cmd_run(args: &Args) {
     let pd = prim_domain(tier);
     let mut results = run_jobs(&tab, |e| run_layout(e, &pd, prop, tier));
     // From / LossyFrom existence and value at every other fractional-bit count (second table, `prim` only)
-    let ptab: Vec<Entry> = if prop == Prop::C04 || prop == Prop::C05 { ponly::table().into_iter().filter(|e| only.as_ref().map_or(true, |o| *o == e.l.name() || *o == e.l.family())).collect() } else { vec![] };
+    let ptab: Vec<Entry> = if prop != Prop::C11 { ponly::table().into_iter().filter(|e| only.as_ref().map_or(true, |o| *o == e.l.name() || *o == e.l.family())).collect() } else { vec![] };
     results.extend(run_jobs(&ptab, |e| run_layout(e, &pd, prop, tier)));
     let probe_only_layouts = ptab.len() as u64;
     // thorough tier, C05: every one of the 2^32 f32 bit patterns into a fixed list of layouts
